@@ -33,6 +33,7 @@ ODE_MODS = [
     {"H2": {"factors": ["f"], "reactants": [["H", "H"]]}},
     {"H": {"factors": ["-2.0 * f"], "reactants": [["H2"]]}},
     {"H2": {"factors": ["a+b", "-g"], "reactants": [["H", "H", "e-"], ["H2"]]}, "H+": {"factors": ["h"], "reactants": [["H", "e-"]]}},
+    {"H": {"factors": ["2.0 * inject", "-f"], "reactants": [[], ["H2"]]}},  # a constant source term (no dependency) next to an ordinary one
     {"H2": {"factors": ["0.5*f*(1.0+2.5e-3*g+8.0e-6*g*g+3.1e-9*g*g*g+4.4e-12*g*g*g*g+5.5e-15*g*g*g*g*g)"], "reactants": [["H", "H"]]}},
 ]
 
